@@ -20,3 +20,20 @@ func verifBdatStart() {
 		h()
 	}
 }
+
+var verifConnAcceptedHook func()
+
+// SetVerifConnAcceptedHook installs a function that the goroutine serving a
+// freshly accepted connection calls before it registers the connection with
+// the server. A test harness uses it to decide when that happens relative to
+// Server.Close and Server.Shutdown. It must be set before the server starts
+// serving.
+func SetVerifConnAcceptedHook(f func()) {
+	verifConnAcceptedHook = f
+}
+
+func verifConnAccepted() {
+	if h := verifConnAcceptedHook; h != nil {
+		h()
+	}
+}
